@@ -195,11 +195,55 @@ class TmpArgs(ast.NodeTransformer):
         return node
 
 
-T = {"unparse": None, "rename": Rename, "flipif": FlipIf, "noop": Noop, "reorder": Reorder, "tmpvar": TmpVar, "elseify": Elseify, "deelse": DeElse, "cmpswap": CmpSwap, "tmpargs": TmpArgs}
+class KwCalls(ast.NodeTransformer):
+    """obj.m(a, b) -> obj.m(x=a, y=b) for method calls on self / self.circuit / backend whose method name has one
+    positional signature in the whole package (the signatures are collected by transform() before rewriting)"""
+    SIGS = {}
+
+    def visit_Call(self, node):
+        self.generic_visit(node)
+        f = node.func
+        if not (isinstance(f, ast.Attribute) and node.args and not node.keywords):
+            return node
+        recv = ast.unparse(f.value)
+        if recv not in ("self", "self.circuit", "backend", "self.backend"):
+            return node
+        sig = self.SIGS.get(f.attr)
+        if not sig or any(isinstance(a, ast.Starred) for a in node.args) or len(node.args) > len(sig):
+            return node
+        node.keywords = [ast.keyword(arg=p, value=a) for p, a in zip(sig, node.args)]
+        node.args = []
+        return node
+
+
+def _collect_sigs(root):
+    sigs = {}
+    for dp, _, fs in os.walk(os.path.join(root, "strawberryfields")):
+        for f in fs:
+            if f.endswith(".py"):
+                tree = ast.parse(open(os.path.join(dp, f)).read())
+                for n in ast.walk(tree):
+                    if isinstance(n, ast.ClassDef):
+                        for m in n.body:
+                            if isinstance(m, ast.FunctionDef):
+                                a = m.args
+                                if a.vararg or a.posonlyargs or any(isinstance(d, ast.Name) and d.id in ("staticmethod", "classmethod", "property") for d in m.decorator_list):
+                                    sigs.setdefault(m.name, set()).add(None)
+                                    continue
+                                ps = tuple(x.arg for x in a.args[1:])
+                                sigs.setdefault(m.name, set()).add(ps)
+                    elif isinstance(n, ast.FunctionDef):
+                        pass
+    return {k: list(next(iter(v))) for k, v in sigs.items() if len(v) == 1 and None not in v}
+
+
+T = {"unparse": None, "rename": Rename, "flipif": FlipIf, "noop": Noop, "reorder": Reorder, "tmpvar": TmpVar, "elseify": Elseify, "deelse": DeElse, "cmpswap": CmpSwap, "tmpargs": TmpArgs, "kwcalls": KwCalls}
 
 
 def transform(root, name):
     n = 0
+    if name == "kwcalls":
+        KwCalls.SIGS = _collect_sigs(root)
     for dp, _, fs in os.walk(os.path.join(root, "strawberryfields")):
         for f in fs:
             if not f.endswith(".py"):
